@@ -202,7 +202,7 @@ def s3(ck, an, concrete):
         ck.check(ok_it and ok_app, "CONST", f"S3.rule-enumerates-month-{name}", f.short, f.loc, "every day 1..monthrange(year, month) is grouped under its weekday name",
                  f"{name}: day enumeration is range {it}, grouping {got}", construct=f"{name}._get_expiry_date loop")
         container = got[0][0] if got else "dates"
-        v = r[0].value if r else None
+        v = deref(fa, r[0].value)[0] if r else None
         okr = isinstance(v, ast.Subscript) and const_value(v.slice) == idx and isinstance(v.value, ast.Subscript) and const_value(v.value.slice) == "Friday" and isinstance(v.value.value, ast.Name)
         ck.check(okr, "CONST", f"S3.rule-constant-{name}", f.short, f.loc, f"{name} expires on Friday number {idx + 1} of the month (index {idx} of the month's Fridays)",
                  f"{name} expiry is {ast.unparse(v) if v is not None else '?'}", construct=f"return dates['Friday'][{idx}]")
